@@ -104,6 +104,10 @@ def run_case(case):
             Q = m.Qd.copy()
         ms.append((Q, m.y.copy(), m.noise, tuple(m.proj)))
     eng = mbi.PublicInference(public, metric=case['metric'])
+    if case['pub_seed'] % 4 == 1:
+        # the engine was used before, for other answers implying another total (estimated from them)
+        eng.estimate([(Q, 3.0 * y + 1.0, s, p) for Q, y, s, p in ms], total=None)
+        out.classes.append('prior_call_other_answers')
     est = eng.estimate(ms, total=case['total'])
     w = np.asarray(est.weights, dtype=float)
     if case['pub_seed'] % 3 == 0:
